@@ -68,3 +68,6 @@ META["C07"] = _m("e3model", "DESIGN.md section 4, C07", "fault enumeration (720 
     "Exhaustive enumeration of the fault space for pipelines of at most three handlers plus random sampling of larger programs, with containment assertions (no escape, no wedge, process alive) and model trace equality.", "Trusts the pipeline model and a 15 s bound for 'the call never returned'.")
 META["C13"] = _m("mock", "DESIGN.md section 4, C13", "property-based testing: generated listener/connect/accept/shutdown histories with a gated executor and mock transport factory; stuck-state ledger oracle",
     "Random exploration of start-up/shutdown overlaps where the harness decides when each executor action runs; the end state is judged when no goroutine can run any more; search, not proof.", "Trusts the goroutine tracker (running vs parked in a mock) and the mock factory/acceptor.")
+
+META["C15"] = _m("mock", "DESIGN.md section 4, C15", "grammar-based property testing: generated request sequences x handler programs x fragmentations; differential against net/http (ReadResponse parse-back, request ground truth)",
+    "Randomised end-to-end testing of the HTTP server codec through a real channel and read loop with net/http as the standard parser; search, not proof.", "Trusts net/http's parsers and the mock transport's stream recording.")
